@@ -31,7 +31,13 @@ def run(ck, pid, timeout_mix, n_quick, n_thorough, title_rule):
             ck.count("op:" + o.split()[0])
         if any(o.split()[0] in ("shutdown", "expire") for o in ops):
             ck.distinct.add(line)
-        bad = "harness: " + il[:200] if il.startswith(("PANIC", "CRASH")) else L.read_statement(ops, res)
+        if il.startswith(("PANIC", "CRASH")):
+            bad = "harness: " + il[:200]
+        elif "STALE-DEADLINE=" in il:
+            bad = ("a service with an idle timeout entered Accept without re-arming the listener's deadline after the previous Accept returned: "
+                   "the timeout period is then measured from an older instant than the last new connection")
+        else:
+            bad = L.read_statement(ops, res)
         if bad:
             nf += 1
             ck.fail("life-history", line, bad, impl=il[:600], model=ml[:600])
